@@ -54,15 +54,16 @@ Proof. exact unmarshal_header_text_total_gen. Qed.
 Print Assumptions header_text_total.
 
 (** sam.Reader.Read line trimming: ReadBytes returns at least the delimiter
-    unless it reports EOF. An accepted line is not empty. *)
+    unless it reports EOF. An empty line is handed on and rejected by
+    UnmarshalSAM's field count. *)
 Theorem sam_read_line_total :
   forall b eof, (eof = false -> 1 <= zlen b) -> safe (sam_read_line b eof).
 Proof. exact sam_read_line_total_gen. Qed.
 Print Assumptions sam_read_line_total.
 
-Theorem sam_read_line_value_nonempty : forall b eof l, sam_read_line b eof = Ok l -> 1 <= zlen l.
-Proof. exact sam_read_line_nonempty. Qed.
-Print Assumptions sam_read_line_value_nonempty.
+Theorem sam_empty_line_rejected : forall l, zlen l = 0 -> sam_field_count l = Err 1.
+Proof. exact sam_empty_line_rejected_gen. Qed.
+Print Assumptions sam_empty_line_rejected.
 
 (** ParseAux: for every text and every answer of strconv. (That the returned
     Aux is accepted by the accessors is checked by the correspondence and the
@@ -140,18 +141,24 @@ Theorem cram_block_read_total : forall crc_ok s, all_bytes s = true -> safe (blo
 Proof. exact block_read_total_gen. Qed.
 Print Assumptions cram_block_read_total.
 
-(** Block.Value for every block that is not a slice header, every answer of the
-    decompressors and of the header library calls. Partial: the slice header
-    branch (Slice.readFrom) and Container.readFrom read LTF-8 numbers, for which
-    no decoder theorem is available here; they are covered by the
-    correspondence run and the fuzz run only. *)
-Theorem cram_block_value_safe_partial :
+(** Container.readFrom (ITF-8 and LTF-8 header fields, landmarks array, CRC). *)
+Theorem cram_container_read_total : forall crc_ok s, all_bytes s = true -> safe (container_read crc_ok s).
+Proof. exact container_read_total_gen. Qed.
+Print Assumptions cram_container_read_total.
+
+(** Slice.readFrom (block id array from an ITF-8 count). *)
+Theorem cram_slice_read_total : forall data, all_bytes data = true -> safe (slice_read data).
+Proof. exact slice_read_total_gen. Qed.
+Print Assumptions cram_slice_read_total.
+
+(** Block.Value for every block (file header, slice header, data blocks of every
+    method), every answer of the decompressors and of the header library calls. *)
+Theorem cram_block_value_safe :
   forall unz lib b,
     all_bytes (k_data b) = true -> (forall m d x, unz m d = Some x -> all_bytes x = true) ->
-    (k_typ b =? cram_mappedSliceHeader) = false ->
     safe (block_value unz lib b).
 Proof. exact block_value_safe_gen. Qed.
-Print Assumptions cram_block_value_safe_partial.
+Print Assumptions cram_block_value_safe.
 
 (* ------------------------------------------------------------- non-vacuity *)
 
